@@ -20,7 +20,8 @@
 (*                    UnitAttached UserIdKept                              *)
 (*   BepVerdict       NothingElse BepFields NumberMatches UnitAttached     *)
 (*                    BepMembers UserIdKept                                *)
-(*   PhaseVerdict     NothingElse PhaseLists PhaseKind NumberMatches       *)
+(*   PhaseVerdict     NothingElse PhaseLists PhaseKind PhaseNote            *)
+(*                    NumberMatches                                        *)
 (*                    UnitAttached RangeDenotesMembers PhaseKeywords       *)
 (*   EndVerdict       EachSpeciesOnce EachPhaseOnce EachReactionOnce       *)
 (*                    EachBepOnce EachInteractionOnce UniqueIds            *)
@@ -104,7 +105,8 @@ BeginVerdict(e) ==
    ELSE IF ~e.loaded THEN {"WellFormed"}
    ELSE LET s == e.sections  x == e.exp IN
         (IF e.fmt = "yaml"
-         THEN If(SeqSet(s) = YamlSections(x) /\ NoDup(s), "Sections")
+         THEN If(YamlSections(x) \subseteq SeqSet(s) /\ SeqSet(s) \subseteq YamlSections(x) \cup SeqSet(x.may)
+                 /\ NoDup(s), "Sections")       \* x.may: sections of lists given EMPTY may appear (empty)
          ELSE If(SeqSet(s) \subseteq KnownDirectives, "WellFormed")
               \cup If(Len(s) > 0 /\ s[1] = "units" /\ Count(s, "units") = 1, "Sections")
               \cup If(x.has_rx => (e.motz = (IF x.motz THEN "true" ELSE "false")), "MotzWise"))
@@ -190,6 +192,7 @@ PhaseVerdict(fmt, o, x, rid, iid) ==
    IF ~x.found THEN {"NothingElse"}
    ELSE If(o.extra = <<>>, "NothingElse")
         \cup If(o.kind = x.kind, "PhaseKind")
+        \cup If(fmt = "cti" => o.note = x.note, "PhaseNote")      \* words of the note, in order
         \cup If(/\ NoDup(o.species) /\ SeqSet(o.species) = SeqSet(x.species)
                 /\ NoDup(o.elements) /\ SeqSet(o.elements) = SeqSet(x.elements)
                 /\ (fmt = "cti" /\ x.kind = "iface" => SeqSet(o.parents) = SeqSet(x.parents)), "PhaseLists")
